@@ -28,7 +28,9 @@ AXIOMS_OK = []
 # translated on every run and proved equal to Model/Job.v signed_costs; so is the whole of Job.evaluate (front-end
 # tools/py2coq_eff.py: try/except as a match on the objective's outcome, raise as a result), = Model/Job.v job_evaluate
 from harness.core import translated_specs
-TRANSLATED = translated_specs("SignedCostsGen", "JobGen")
+# ... and Evaluator.evaluate_serial / evaluate_scalar (which designs reach Job.evaluate, the scalar bridge), the submission
+# filter of evaluate_parallel and SweepAlgorithm.run, = Model/Job.v evaluate_serial / evaluate_scalar / sweep
+TRANSLATED = translated_specs("SignedCostsGen", "JobGen", "EvalPathGen", "SweepGen")
 TRUSTED = [
     "Coq 8.16.1 kernel, vm_compute for model evaluation (no native_compute)",
     "hand-written model Model/Job.v tied to job.py / operators.py / individual.py / algorithm_sweep.py by this correspondence run",
